@@ -191,6 +191,23 @@ Proof. intros [-> | ->]; reflexivity. Qed.
 
 End UploadProofs.
 
+(* a source handed over at a position past 0: every pass reads what was left at hand-over *)
+Theorem reader_position_respected seek_visible s att :
+  reader_pass true seek_visible s att = rs_content s.
+Proof. unfold reader_pass. destruct (att <=? 0)%Z; reflexivity. Qed.
+
+Theorem reader_position_is_file_read seek_visible param name k s used att :
+  k = FSeekReader \/ k = FSeekNoClose ->
+  file_read att (mfile_at param name k s used) = Some (reader_pass true seek_visible s att).
+Proof. intros [-> | ->]; rewrite reader_position_respected; reflexivity. Qed.
+
+(* before 9ce4104 (and with a change that keeps Seek visible on every seekable reader): the
+   retry uploads the bytes the caller had consumed as well *)
+Theorem reader_seek_zero_refuted :
+  reader_pass false true (mkSrc (bs "HDR:payload") 4) 0 = bs "payload" /\
+  reader_pass false true (mkSrc (bs "HDR:payload") 4) 1 = bs "HDR:payload".
+Proof. split; reflexivity. Qed.
+
 Example upload_attempts_identical_nonvacuous :
   mp_attempts file_read (fun _ => bs "application/octet-stream") true 3 0 ([], [(bs "f", [bs "1"])])
     [mkFile (bs "file") (bs "a.txt") FPath (bs "hello") false;
